@@ -22,7 +22,6 @@
 -/
 import CatVerif.Proofs.RingInvP
 import CatVerif.Proofs.Fifo
-import CatVerif.Proofs.Steps.Ring
 namespace Cat
 open St
 
@@ -138,23 +137,5 @@ theorem C13_taken_prefix (D : Desc) (buf ubuf : List Byte) (mem : List (List Byt
     (hc : 0 < D.cap) (hq : ∀ op ∈ ops, OpQ op) :
     histTaken ⟨D, init D buf ubuf mem⟩ ops <+: histAccepted ⟨D, init D buf ubuf mem⟩ ops :=
   ⟨_, (C13_fifo_exactly_once D buf ubuf mem ops hc hq).symm⟩
-
-/-- the ring operations — refuse when full, store at the tail, advance with wrap-around, count; take
-from the head, advance with wrap-around, count down; hand the popped event to the READ or TEST
-formatter — are, in the model, the functions whose statement shapes are re-recognised in
-`push_unsolicited_cmd`, `pop_unsolicited_cmd` and `check_unsolicited_buffers` of the source on every
-run (translator item T13: any other statement there is reported as a broken tie) -/
-theorem C13_ring_generated (D : Desc) (s : St) (c : Nat) (t : CmdType) :
-    pushUnsolicited D s c t = Gen.push_unsolicited_cmd D s c t ∧
-    checkUnsolicitedBuffers D s = Gen.check_unsolicited_buffers D s :=
-  ⟨pushUnsolicited_generated D s c t, checkUnsolicitedBuffers_generated D s⟩
-
-/-- the counters this property's theorems keep as unbounded natural numbers (`unsolicited_cmd_buffer_head`, `unsolicited_cmd_buffer_items_count`, `unsolicited_cmd_buffer_tail`) are declared
-`size_t` in `cat.h` — 64 bits on the target, so they cannot wrap on any buffer, table or line that exists; the widths
-are read from the struct declarations on every run (translator item T21) -/
-theorem C13_counters_unbounded :
-    Gen.width_uns_unsolicited_cmd_buffer_head = 64 ∧
-    Gen.width_uns_unsolicited_cmd_buffer_items_count = 64 ∧
-    Gen.width_uns_unsolicited_cmd_buffer_tail = 64 := by decide
 
 end Cat
